@@ -109,7 +109,7 @@ def round_varz_vector(
     if (
         is_valid_required
         and np.any(z < 0)
-        and not np.all(np.isclose(z, 0, atol=atol, rtol=0.0))
+        and not np.all(np.isclose(z[z < 0], 0, atol=atol, rtol=0.0))
     ):
         raise ValueError(f"z must consist of a non-negative number. z is {z}")
     if eps < 0:
